@@ -7,7 +7,8 @@ patch=$1; id=$2; shift 2
 d=$(mktemp -d /dev/shm/mutrepo.XXXXXX)
 rsync -a --exclude .git /repo/ $d/
 ( cd $d && git init -q && git add -A >/dev/null 2>&1 && git -c user.email=a@b -c user.name=x commit -qm base >/dev/null 2>&1; ( git apply "$patch" 2>/dev/null || git apply --3way "$patch" 2>/dev/null || patch -p1 --fuzz=3 -s < "$patch" ) ) || { echo "PATCH DOES NOT APPLY"; rm -rf $d; exit 9; }
-env VERIF_REPO=$d "$@" /verif/bin/verif check $id
+mkdir -p /verif/replays/mut
+env VERIF_REPO=$d VERIF_EVIDENCE_DIR=$d/.evidence VERIF_REPLAYS_DIR=/verif/replays/mut "$@" /verif/bin/verif check $id
 rc=$?
 rm -rf $d
 echo "mutrun: $patch on $id -> exit $rc"
